@@ -14,6 +14,7 @@ import Nlmodel.Proofs.Lemmas.ResolveFn
 import Nlmodel.Proofs.Lemmas.ParsedFloats
 import Nlmodel.Proofs.Lemmas.Resolve6Top
 import Nlmodel.Proofs.Lemmas.SyntacticOnly
+import Nlmodel.Proofs.Lemmas.Resolve7Top
 namespace Nl
 namespace C01
 
@@ -389,6 +390,57 @@ theorem C01_heap_and_calls_eval_text_syntactic (cc : CharClass) (src : Text) (as
 /-- non-vacuity: `functie f(n) { als n < 1 { antwoord [] }; stel a = f(n - 1); [n, a, "x", 1.5] }; print(f(3)); f(2)`
     (recursion, a returned array nested in a new one, a string, a float, `print`) is in the syntactic fragment -/
 example : Sim6.src6Top Sim6.ex6Ast = true := by decide
+
+/-- FORWARD SIMULATION, stage 7: NESTED FUNCTION LITERALS — function literals in every expression position (inside function
+    bodies, as arguments, immediately called, as array elements, as `stel` initialisers, returned) and named function
+    declarations as statements of any block, on top of everything of stage 6.  The function table holds EVERY literal of the
+    tree (`Sim7.litsTop`, positions from the static sizes); the entry points are pairwise distinct (`Sim7.ipsTop`) and so are
+    the function ids, for every resolver output (`Sim7.resolve_fids_distinct`).  A literal's body is checked against the
+    PERSISTENT global scope `Δ` only: a literal inside a top-level block that uses a block-scoped global is outside (there
+    the property is false: the slot is reused after the block while the function value may live on — unspecified behaviour
+    U1). -/
+theorem C01_nested_functions_simulation (W : Sim6.World) (hW : Sim7.WOK7 W) (f : Nat) : Sim7.PAll7 W f := Sim7.pall7 hW f
+
+/-- END TO END, stage 7, by validation (`Sim7.inFragment7`: pure fragment membership, decidable, proved sound) -/
+theorem C01_nested_functions_program (ast : Block) (r : RBlock) (bc : Bytecode) (hc : compileProgram ast = .ok (r, bc))
+    (hin : Sim7.inFragment7 r = true) (F : Nat) :
+    (∃ n s', ∀ k, runSteps bc.code (n + k) (VM.start {} bc) = .error .index s') ∨
+    match Spec.evalB F r {} with
+    | .val () st' => ∃ mv n s', (∀ k, runSteps bc.code (n + k) (VM.start {} bc) = .value mv s') ∧
+        s'.mem.heap.tree treeDepth [] mv = st'.tree treeDepth [] st'.last ∧ s'.out = st'.out ∧
+        (finishValue mv s').mem.heap.tree treeDepth [] mv = s'.mem.heap.tree treeDepth [] mv
+    | .err er ste => ∃ n s', (∀ k, runSteps bc.code (n + k) (VM.start {} bc) = .error er s') ∧ s'.out = ste.out
+    | .brk _ => False
+    | .cont _ => False
+    | .ret _ _ => False
+    | _ => True :=
+  Sim7.program7 ast r bc hc hin F
+
+/-- THE OBSERVATION, stage 7: by validation of the resolver's output ... -/
+theorem C01_nested_functions_eval_text (cc : CharClass) (src : Text) (ast : Block) (r : RBlock) (bc : Bytecode)
+    (hp : parse cc src = .ok ast) (hc : compileProgram ast = .ok (r, bc)) (hin : Sim7.inFragment7 r = true) (F : Nat) :
+    (∃ n out, ∀ k, evalText cc (n + k) src = .error .index out) ∨
+    match specText cc F src with
+    | .value t out => ∃ n, ∀ k, evalText cc (n + k) src = .value t out
+    | .error e out => ∃ n, ∀ k, evalText cc (n + k) src = .error e out
+    | .fault _ => False
+    | _ => True :=
+  Sim7.eval_text7 cc src ast r bc hp hc hin F
+
+/-- ... and with NO validation for the syntactic class `Sim7.S7Top` (decidable `Sim7.src7Top`: function literals at top level
+    outside blocks and anywhere inside function bodies; R1 of the resolver for context stacks of any depth, `Sim7.resolve_ztop7`) -/
+theorem C01_nested_functions_eval_text_no_validation (cc : CharClass) (src : Text) (ast : Block) (r : RBlock) (bc : Bytecode)
+    (hp : parse cc src = .ok ast) (hs : Sim7.src7Top ast = true) (hc : compileProgram ast = .ok (r, bc)) (F : Nat) :
+    (∃ n out, ∀ k, evalText cc (n + k) src = .error .index out) ∨
+    match specText cc F src with
+    | .value t out => ∃ n, ∀ k, evalText cc (n + k) src = .value t out
+    | .error e out => ∃ n, ∀ k, evalText cc (n + k) src = .error e out
+    | .fault _ => False
+    | _ => True :=
+  Sim7.eval_text7_checked cc src ast r bc hp hs hc F
+
+/-- non-vacuity: a named function defined inside a function and returned is in the syntactic class -/
+example : Sim7.src7Top Sim7.ex7Ast1 = true := by decide
 
 /-- the side condition the fragments put on float literals (`SimH.LitF`: sign bit clear, not NaN) holds for EVERY
     literal of EVERY parsed program: a number token starts with a digit (`ParsedFloats.lex_tokens_ok`), the decimal
